@@ -174,11 +174,25 @@ def cases(draw):
             'oa_mode': draw(st.sampled_from(['c', 'w', 's'])), 'oa_stop_data': draw(st.booleans()),
             'calc_fault': draw(st.integers(0, 2)) == 0,
             'lib_persistent': draw(st.booleans()),
+            # the astable Timer also feeds the OutputAsync block: puts keep arriving until the Timer
+            # (a block without asynchronous clean-up) is stopped, i.e. also while the output block is
+            # completing its work during the clean-up
+            'tm_feeds_oa': draw(st.booleans()),
             'cause': draw(st.sampled_from(CAUSES)),
-            'when': draw(st.sampled_from([0, 0.5, 1.5, 4, 10])),
+            'when': draw(st.sampled_from([0, 0.5, 1.5, 4, 10, 5, 9])),
+            # a guard time keeps the control task of the output block busy for a while
+            'oa_guard': draw(st.sampled_from([None, None, 3.5])),
             'second': draw(st.sampled_from([None, None, 'abort', 'shutdown', 'sigterm'])),
             'entry': draw(st.sampled_from(['run', 'run', 'rf'])),
             'traffic': draw(st.lists(st.sampled_from([0.6, 1.2, 2.4, 3.6]), unique=True, max_size=3))}
+    if draw(st.integers(0, 5)) == 0:
+        # template: an output block kept busy by a Timer until the very end
+        case['lib'] = sorted(set(case['lib']) | {'timer', 'oasync'})
+        case['tm_feeds_oa'] = True
+        case['oa_stop_data'] = True
+        case['oa_guard'] = 3.5
+        case['oa_mode'] = 'c'
+        case['when'] = draw(st.sampled_from([4, 5, 9, 10]))
     if case['entry'] == 'rf':
         if case['cause'] in ('sup_return', 'sup_fail', 'sigterm'):
             case['cause'] = 'shutdown'
@@ -257,7 +271,10 @@ def execute(case):
         lib = {}
         for kind in case['lib']:
             if kind == 'timer':
-                lib[kind] = edzed.Timer('tm', t_on=1.5, t_off=2.5, on_output=edzed.Event(sink, 'x'),
+                tm_events = [edzed.Event(sink, 'x')]
+                if case.get('tm_feeds_oa') and 'oasync' in case['lib']:
+                    tm_events.append(edzed.Event('oa', 'put'))
+                lib[kind] = edzed.Timer('tm', t_on=1.5, t_off=2.5, on_output=tm_events,
                                         persistent=bool(case.get('lib_persistent')))
             elif kind == 'repeat':
                 lib[kind] = edzed.Repeat('rp', dest=sink, etype='x', interval=0.7)
@@ -270,6 +287,9 @@ def execute(case):
                     outlog.append(('a-end', value, clock()))
                 lib[kind] = edzed.OutputAsync(
                     'oa', coro=coro, mode=case['oa_mode'], on_error=None, stop_timeout=20,
+                    # (cancel mode only: in wait mode the Timer would feed the block faster than run + guard
+                    # time can take the events, and a clean-up longer than stop_timeout is the open finding F18)
+                    **({'guard_time': case['oa_guard']} if case.get('oa_guard') and case['oa_mode'] == 'c' else {}),
                     stop_data={'value': 'STOP'} if case['oa_stop_data'] else None)
             elif kind == 'ofunc':
                 lib[kind] = edzed.OutputFunc('of', func=lambda v: outlog.append(('f', v, clock())),
